@@ -41,19 +41,19 @@ def mvdr(d, ctx):
     K = d.int(1, 3)
     if form == '(D,)':
         F = 1
-        phi = gen.hpd(rng, D, cond, scale)
+        phi = gen.vary(d, gen.hpd(rng, D, cond, scale), 101)
         a = gen.cnormal(rng, (D,))
         lead = ()
     elif form == '(F,D)':
-        phi = gen.hpd(rng, D, cond, scale, (F,))
+        phi = gen.vary(d, gen.hpd(rng, D, cond, scale, (F,)), 102)
         a = gen.cnormal(rng, (F, D))
         lead = (F,)
     elif form == '(K,F,D)':
-        phi = gen.hpd(rng, D, cond, scale, (F,))
+        phi = gen.vary(d, gen.hpd(rng, D, cond, scale, (F,)), 103)
         a = gen.cnormal(rng, (K, F, D))
         lead = (K, F)
     else:
-        phi = gen.hpd(rng, D, cond, scale, (K, F))
+        phi = gen.vary(d, gen.hpd(rng, D, cond, scale, (K, F)), 104)
         a = gen.cnormal(rng, (K, F, D))
         lead = (K, F)
     a = a * 10 ** rng.uniform(-2, 2, size=(*a.shape[:-1], 1))
@@ -90,7 +90,7 @@ def lcmv(d, ctx):
     D, F, cond, scale = _dims(d)
     K = d.int(1, min(3, D))
     rng = d.rng()
-    phi = gen.hpd(rng, D, min(cond, 1e4), scale, (F,))
+    phi = gen.vary(d, gen.hpd(rng, D, min(cond, 1e4), scale, (F,)), 105)
     atf = gen.cnormal(rng, (K, F, D))
     rk = d.choice(['onehot', 'real', 'ones'])
     if rk == 'onehot':
@@ -148,7 +148,7 @@ def souden_wmwf(d, ctx):
     bf = _bf()
     D, F, cond, scale = _dims(d)
     rng = d.rng()
-    phi_nn = gen.hpd(rng, D, cond, scale, (F,))
+    phi_nn = gen.vary(d, gen.hpd(rng, D, cond, scale, (F,)), 106)
     phi_xx, a, tk = _target(d, rng, D, F, cond, scale * d.choice([1.0, 1e-3, 1e3]))
     ref = d.int(0, D - 1)
     mu = d.choice([0.0, 1.0, 100.0]) if d.bool() else d.float(0, 100)
@@ -212,7 +212,7 @@ def reference_channel(d, ctx):
     bf = _bf()
     D, F, cond, scale = _dims(d)
     rng = d.rng()
-    phi_nn = gen.hpd(rng, D, min(cond, 1e4), scale, (F,))
+    phi_nn = gen.vary(d, gen.hpd(rng, D, min(cond, 1e4), scale, (F,)), 107)
     phi_nn = phi_nn * 10 ** rng.uniform(-2, 2, size=(F, 1, 1))
     phi_xx, a, tk = _target(d, rng, D, F, min(cond, 1e3), scale)
     mu = d.choice([0.0, 0.5, 1.0, 10.0, 100.0])
@@ -251,7 +251,7 @@ def wmwf_options(d, ctx):
     D, F, cond, scale = _dims(d)
     rng = d.rng()
     single = d.int(0, 3) == 0
-    phi_nn = gen.hpd(rng, D, min(cond, 1e3), scale, (F,))
+    phi_nn = gen.vary(d, gen.hpd(rng, D, min(cond, 1e3), scale, (F,)), 108)
     phi_xx, a, tk = _target(d, rng, D, F, min(cond, 1e3), scale)
     if single:
         phi_nn, phi_xx = phi_nn.astype(np.complex64), phi_xx.astype(np.complex64)
